@@ -460,6 +460,15 @@ def context_roles(ctx) -> _Roles:
                 R.ctx_attr = t.elts[pos_d].attr
             if is_self_attr(t.elts[pos_t]):
                 R.token_attr = t.elts[pos_t].attr
+        elif isinstance(t, ast.Name) and pos_d is not None and pos_t is not None and local_defs(ent).get(t.id) is R.unpack.value:
+            # the pair is kept in a local and taken apart by position: `pair = init(); self.a = pair[0]; self.b = pair[1]`
+            for n in walk_body(ent):
+                if isinstance(n, ast.Assign) and len(n.targets) == 1 and is_self_attr(n.targets[0]) and isinstance(n.value, ast.Subscript) and isinstance(n.value.value, ast.Name) \
+                        and n.value.value.id == t.id and source.is_const(n.value.slice) and type(n.value.slice.value) is int:
+                    if n.value.slice.value in (pos_d, pos_d - 2):
+                        R.ctx_attr = n.targets[0].attr
+                    elif n.value.slice.value in (pos_t, pos_t - 2):
+                        R.token_attr = n.targets[0].attr
     ctx._c18_roles = R
     return R
 
@@ -540,6 +549,18 @@ def _props_inlined(e, R, depth=0):
                     return _props_inlined(source.inline_node(rets[0].value, _ldefs(f)), R, depth + 1)
             return n
 
+        def visit_Call(self, n):
+            self.generic_visit(n)
+            f = R.mm.get(n.func.attr) if isinstance(n.func, ast.Attribute) and isinstance(n.func.value, ast.Name) and n.func.value.id == "self" else None
+            if f is not None and depth < 4 and not f.decorator_list and not any(isinstance(a, ast.Starred) for a in n.args) and all(k.arg for k in n.keywords):
+                # a plain helper method of the manager that only returns an expression over its parameters (`self._timing("request_start")`): that expression
+                body = [x for x in f.body if not (isinstance(x, ast.Expr) and isinstance(x.value, ast.Constant)) and not is_logging_stmt(x)]
+                b = source.bind_args(n, f)
+                if len(body) == 1 and isinstance(body[0], ast.Return) and body[0].value is not None and set(params_of(f)[1:]) <= set(b) and not f.args.kwonlyargs \
+                        and f.args.vararg is None and f.args.kwarg is None:
+                    return _props_inlined(source.inline_node(body[0].value, dict(b)), R, depth + 1)
+            return n
+
     return T().visit(source.clone(e))
 
 
@@ -584,16 +605,26 @@ def _propagations(R):
     return ex, props
 
 
-def _context_withs(func, factories) -> list:
+def _context_withs(func, factories, step=None, shared_attrs=()) -> list:
     """[(with statement, item, how)]: the with statements of func that enter a request context - by data flow: the context expression, seen through single-assignment locals
-    (a hoisted bound method, a context object built one line earlier), is a call of the holder's context factory (how = 'call'), or it is an instance attribute the function
-    assigns such a call to (how = 'attr': the context object lives in state shared by all invocations)"""
+    (a hoisted bound method, a context object built one line earlier), is a call of the holder's context factory - or of a plain helper (step: the _Step view of the class)
+    whose returned expression is such a call - (how = 'call'), or it is an instance attribute that the function (or, shared_attrs, another function of the view) assigns such a
+    call to (how = 'attr': the context object lives in state shared by all invocations)"""
     defs = local_defs(func)
 
-    def factory_call(e):
-        return isinstance(e, ast.Call) and isinstance(e.func, ast.Attribute) and e.func.attr in factories
+    def factory_call(e, fn=func, depth=0):
+        if not isinstance(e, ast.Call):
+            return False
+        if isinstance(e.func, ast.Attribute) and e.func.attr in factories:
+            return True
+        h = step.callee(e, fn) if step is not None and depth < 3 else None
+        if h is not None and not isinstance(h, ast.AsyncFunctionDef):  # a helper that opens nothing itself and hands back a new context manager
+            rets = [n for n in walk_body(h) if isinstance(n, ast.Return) and n.value is not None]
+            return len(rets) == 1 and factory_call(source.inline_node(rets[0].value, local_defs(h)), h, depth + 1)
+        return False
 
     attr_ctx = {u(n.targets[0]) for n in walk_body(func) if isinstance(n, ast.Assign) and isinstance(n.targets[0], ast.Attribute) and factory_call(source.inline_node(n.value, defs))}
+    attr_ctx |= set(shared_attrs)
     out = []
     for n in walk_body(func):
         if isinstance(n, (ast.With, ast.AsyncWith)):
@@ -684,17 +715,15 @@ def _mentions(e, var: str, attrs) -> bool:
     return any(isinstance(n, ast.Attribute) and n.attr in attrs and isinstance(n.value, ast.Name) and n.value.id == var for n in ast.walk(e))
 
 
-def timing_presence_table(node, cvn: str, defs: dict):
+def timing_presence_table(node, cvn: str, defs: dict, facts=None):
     """Decide on VALUES under which (start, end) of the context object `cvn` the expression `node` is evaluated: the guard facts of node (explicit branches, conditional
     expressions and the negated conditions of preceding guard clauses) that speak about the context's start / end are evaluated - seen through single-assignment locals - on every
-    combination of a missing (None), a falsy-but-legal (0.0) and an ordinary time. Returns ({(start, end): reached?}, [texts of the facts used]); raises CannotEval."""
+    combination of a missing (None), a falsy-but-legal (0.0) and an ordinary time. `facts`: the guard facts already collected and resolved by the caller (those of a chain
+    through helper calls) instead of the ones of node's own function. Returns ({(start, end): reached?}, [texts of the facts used]); raises CannotEval."""
     from sa.minieval import Record
 
-    facts = []
-    for f in pat.fact_nodes(node):
-        fi = source.inline_node(f, defs)
-        if _mentions(fi, cvn, ("request_start", "request_end")):
-            facts.append(fi)
+    cand = [source.inline_node(f, defs) for f in pat.fact_nodes(node)] if facts is None else list(facts)
+    facts = [fi for fi in cand if _mentions(fi, cvn, ("request_start", "request_end"))]
     table = {}
     for s in (None, 0.0, 5.0):
         for e in (None, 0.0, 7.0):
@@ -1028,16 +1057,215 @@ def _used_as_state(assign, mod) -> bool:
     return False
 
 
-def _request_loop(drv):
-    """(AsyncExecutor.__call__, its request loop): the loop over the schedule - of the `async for` loops of the method the one that contains the runner invocation (the first
-    one if that cannot be told). Same role as rules.C04.request_loop; derived here so that this module does not depend on another rule module being importable."""
+_RUNNER = "execute_single"  # the driver's function that invokes the runner of ONE request: the anchor of the executor's request step (never followed as a helper)
+_LOOPS = (ast.AsyncFor, ast.For, ast.While)
+
+
+def _has_yield(f) -> bool:
+    return any(isinstance(x, (ast.Yield, ast.YieldFrom)) for x in walk_body(f))
+
+
+def _namedtuple_fields(e):
+    """field names of a `[collections.]namedtuple("K", <names>)` call (names as a list / tuple of strings or one string), else None"""
+    if not (isinstance(e, ast.Call) and last_attr(e.func) == "namedtuple" and len(e.args) == 2):
+        return None
+    spec = e.args[1]
+    if source.is_const(spec) and isinstance(spec.value, str):
+        return spec.value.replace(",", " ").split()
+    if isinstance(spec, (ast.List, ast.Tuple)) and all(source.is_const(x) and isinstance(x.value, str) for x in spec.elts):
+        return [x.value for x in spec.elts]
+    return None
+
+
+def _record_fields(mod, name):
+    """field names, in constructor order, of the record type `name` of module mod: `K = namedtuple("K", ...)`, a class deriving from such a call or from [typing.]NamedTuple,
+    a @dataclass - provided the class defines no __init__ / __new__ of its own; None if `name` is no such type (then nothing is known about what its constructor does)"""
+    for n in mod.tree.body:
+        if isinstance(n, ast.Assign) and len(n.targets) == 1 and isinstance(n.targets[0], ast.Name) and n.targets[0].id == name:
+            return _namedtuple_fields(n.value)
+        if isinstance(n, ast.ClassDef) and n.name == name:
+            if any(isinstance(x, source.FUNC_TYPES) and x.name in ("__init__", "__new__", "__post_init__", "__getattr__", "__getattribute__", "__getitem__") for x in n.body):
+                return None
+            for b in n.bases:
+                if _namedtuple_fields(b) is not None:
+                    return _namedtuple_fields(b)
+            deco = {last_attr(d.func if isinstance(d, ast.Call) else d) for d in n.decorator_list}
+            if "dataclass" in deco or any(last_attr(b) == "NamedTuple" for b in n.bases):
+                if any(isinstance(d, ast.Call) and any(k.arg in ("init", "kw_only") for k in d.keywords) for d in n.decorator_list):
+                    return None
+                # (the parse-time normalisation N7 turns an annotated field with a default into a plain assignment)
+                return [x.target.id if isinstance(x, ast.AnnAssign) else x.targets[0].id for x in n.body
+                        if (isinstance(x, ast.AnnAssign) and isinstance(x.target, ast.Name)) or (isinstance(x, ast.Assign) and len(x.targets) == 1 and isinstance(x.targets[0], ast.Name))]
+            return None
+    return None
+
+
+class _Step:
+    """A function of a class seen TOGETHER WITH the helpers it calls (an extracted `_execute_request`, a helper that hands the sample to the sampler, ...): other methods of the
+    class called as self.m(...) - also through a hoisted bound method - and module-level functions of the same module called by name, PROVIDED the call runs inline in the
+    calling task (a coroutine helper is awaited on the spot, a plain helper is not a generator): only then do the helper's statements belong to the same request and run in
+    the same contextvars context. A call that is wrapped in anything else (create_task, wait_for, gather) is not followed: what it does is 'not recognised', never a verdict.
+    A position in this view is a CHAIN of nodes, one per function: [call site in the top function, call site in the helper, ..., the node itself]."""
+
+    def __init__(self, mod, cls, top, stop=()):
+        self.mod, self.cls, self.top = mod, cls, top
+        self.meths = mod.methods(cls) if cls is not None else {}
+        self.modfuncs = {d.name: d for d in mod.tree.body if isinstance(d, source.FUNC_TYPES) and d.name not in stop}
+        self.ambiguous: set = set()  # names met by resolve() that are bound more than once in their function (their value at the point of use is not known)
+        self._defs: dict = {}
+
+    # -- helpers -----------------------------------------------------------------------------------------------------------------------------
+    def callee(self, c, fn):
+        """the helper that the call c (a node of function fn) runs inline, else None"""
+        f = _alias_root(c.func, self.defs(fn)[0]) if isinstance(c.func, ast.Name) else c.func
+        h = None
+        if isinstance(f, ast.Attribute) and isinstance(f.value, ast.Name) and f.value.id in ("self", "cls", getattr(self.cls, "name", "")) and f.attr in self.meths:
+            h = self.meths[f.attr]
+        elif isinstance(f, ast.Name) and f.id in self.modfuncs and f.id not in self.defs(fn)[2]:
+            h = self.modfuncs[f.id]
+        if h is None or h is fn or _has_yield(h) or {last_attr(d.func if isinstance(d, ast.Call) else d) for d in h.decorator_list} - {"staticmethod", "classmethod"}:
+            return None
+        if isinstance(h, ast.AsyncFunctionDef) and not isinstance(source.parent(c), ast.Await):
+            return None
+        return h
+
+    def reached(self, root, fn, depth=0) -> list:
+        """[(node, chain)]: every node under root (a node of fn, or fn itself) and, through at most three inline helper calls, every node of the helpers' bodies"""
+        out = []
+        for n in (walk_body(root) if root is fn else ast.walk(root)):
+            out.append((n, [n]))
+            if isinstance(n, ast.Call) and depth < 3:
+                h = self.callee(n, fn)
+                if h is not None:
+                    out += [(m, [n] + ch) for m, ch in self.reached(h, h, depth + 1)]
+        return out
+
+    def functions(self, fn=None, sites=(), depth=0) -> list:
+        """[(function, call sites leading to it, outermost first)]: fn (default: the top function) and the helpers it runs inline"""
+        fn = fn or self.top
+        out = [(fn, list(sites))]
+        for n in (walk_body(fn) if depth < 3 else ()):
+            h = self.callee(n, fn) if isinstance(n, ast.Call) else None
+            if h is not None:
+                out += self.functions(h, list(sites) + [n], depth + 1)
+        return out
+
+    # -- values across helpers -------------------------------------------------------------------------------------------------------------
+    def defs(self, fn):
+        """(single-assignment locals of fn [parallel assignments included], names unpacked exactly once from a tuple-valued expression: name -> (value, position, arity),
+        {name: number of bindings} for every name bound in fn)"""
+        if id(fn) not in self._defs:
+            counts: dict = {}
+            for n in walk_body(fn):
+                if isinstance(n, ast.Name) and isinstance(n.ctx, (ast.Store, ast.Del)):
+                    counts[n.id] = counts.get(n.id, 0) + 1
+            unp = {}
+            for n in walk_body(fn):
+                if isinstance(n, ast.Assign) and len(n.targets) == 1 and isinstance(n.targets[0], ast.Tuple) and not isinstance(n.value, ast.Tuple) \
+                        and all(isinstance(t, ast.Name) for t in n.targets[0].elts):
+                    unp.update({t.id: (n.value, i, len(n.targets[0].elts)) for i, t in enumerate(n.targets[0].elts) if counts.get(t.id) == 1})
+            self._defs[id(fn)] = (_ldefs(fn), unp, counts)
+        return self._defs[id(fn)]
+
+    def tag(self, name, fn) -> str:
+        """how resolve() spells the local `name` of function fn: a local of a helper carries the helper's name (two functions may use the same name for different things)"""
+        return name if fn is self.top else f"{name}__in__{fn.name}"
+
+    def returned(self, e, fn, sites, depth, index=None, arity=None, opaque_calls=True):
+        """the value (element `index` of the tuple) that the inline helper call e of function fn returns, seen from the top function; None if e is no such call or the helper
+        does not have exactly one return [of a tuple display of that arity]"""
+        c = e.value if isinstance(e, ast.Await) else e
+        h = self.callee(c, fn) if isinstance(c, ast.Call) else None
+        rets = [n for n in walk_body(h) if isinstance(n, ast.Return)] if h is not None else []
+        if len(rets) != 1 or rets[0].value is None:
+            return None
+        v = rets[0].value
+        if index is not None:
+            v = source.inline_node(v, {k: d for k, d in self.defs(h)[0].items() if isinstance(d, ast.Tuple)}) if isinstance(v, ast.Name) else v
+            if not isinstance(v, ast.Tuple) or len(v.elts) != arity or any(isinstance(x, ast.Starred) for x in v.elts):
+                return None
+            v = v.elts[index]
+        return self.resolve(v, h, list(sites) + [c], depth + 1, opaque_calls)
+
+    def resolve(self, e, fn, sites, depth=0, opaque_calls=True):
+        """Copy of the expression e of function fn (reached through the call sites `sites`) as the TOP function sees it: single-assignment locals replaced by their definitions
+        (a definition that contains a call stays an opaque atom - two reads are not the same value - unless opaque_calls=False: for a guard fact, which is evaluated, the
+        definition is what counts), parameters of a helper by the arguments of its call site, names that take
+        the result of an inline helper call by what that helper returns (by position for an unpacked tuple). Names that remain are spelled tag(name, function) and carry
+        `_owner` / `_orig`; a name bound more than once is recorded in self.ambiguous."""
+        me = self
+        d1, unp, counts = self.defs(fn)
+        params = params_of(fn) + [a.arg for a in fn.args.kwonlyargs]
+
+        def atom(n):
+            if not counts.get(n.id) and n.id not in params:
+                return n  # not bound in fn: a global / builtin name means the same in every function
+            if counts.get(n.id, 0) > 1 and n.id not in d1 and n.id not in unp:
+                me.ambiguous.add(me.tag(n.id, fn))
+            x = ast.copy_location(ast.Name(id=me.tag(n.id, fn), ctx=ast.Load()), n)
+            x._owner, x._orig = fn, n.id
+            return x
+
+        class T(ast.NodeTransformer):
+            def visit_Name(self, n):
+                if not isinstance(n.ctx, ast.Load) or depth > 12:
+                    return atom(n)
+                if n.id in d1:
+                    d = d1[n.id]
+                    if any(isinstance(x, (ast.Call, ast.Await)) for x in ast.walk(d)):
+                        v = me.returned(d, fn, sites, depth, opaque_calls=opaque_calls)
+                        if v is not None or opaque_calls:
+                            return v if v is not None else atom(n)
+                    return me.resolve(d, fn, sites, depth + 1, opaque_calls)
+                if n.id in unp:
+                    v = me.returned(unp[n.id][0], fn, sites, depth, unp[n.id][1], unp[n.id][2], opaque_calls)
+                    return v if v is not None else atom(n)
+                if n.id in params and sites and not counts.get(n.id):
+                    a = source.bind_args(sites[-1], fn).get(n.id)
+                    if a is not None:
+                        return me.resolve(a, source.enclosing_func(sites[-1]), sites[:-1], depth + 1, opaque_calls)
+                return atom(n)
+
+            def visit_Attribute(self, n):
+                self.generic_visit(n)
+                v = n.value  # a field of a record (named tuple / dataclass of the module) that was built by a constructor call in view: the argument bound to that field
+                fields = _record_fields(me.mod, v.func.id) if isinstance(v, ast.Call) and isinstance(v.func, ast.Name) else None
+                if fields and n.attr in fields and not any(isinstance(a, ast.Starred) for a in v.args) and all(k.arg for k in v.keywords):
+                    bound = dict(zip(fields, v.args), **{k.arg: k.value for k in v.keywords})
+                    if n.attr in bound and len(v.args) <= len(fields):
+                        return bound[n.attr]
+                return n
+
+            def visit_Subscript(self, n):
+                self.generic_visit(n)
+                v = n.value
+                fields = _record_fields(me.mod, v.func.id) if isinstance(v, ast.Call) and isinstance(v.func, ast.Name) else None
+                if fields and not v.keywords and len(v.args) == len(fields) and not any(isinstance(a, ast.Starred) for a in v.args):
+                    n.value = ast.Tuple(elts=list(v.args), ctx=ast.Load())  # a named tuple indexed by position
+                if isinstance(v, ast.Dict) and source.is_const(n.slice) and all(k is not None and source.is_const(k) for k in v.keys):  # a dict display looked up by a constant key
+                    hits = [x for k, x in zip(v.keys, v.values) if k.value == n.slice.value and type(k.value) is type(n.slice.value)]
+                    if hits:
+                        return hits[-1]
+                if isinstance(n.value, ast.Tuple) and isinstance(n.slice, ast.Constant) and isinstance(n.slice.value, int) and not isinstance(n.slice.value, bool) \
+                        and -len(n.value.elts) <= n.slice.value < len(n.value.elts) and not any(isinstance(x, ast.Starred) for x in n.value.elts):
+                    return n.value.elts[n.slice.value]
+                return n
+
+        return T().visit(source.clone(e))  # (re-parsed: analysed nodes carry parent links and are never deep-copied)
+
+
+def _request_loop(drv, step=None):
+    """(AsyncExecutor.__call__, its request loop): the loop over the schedule - of the `async for` loops of the method the one that contains the runner invocation, directly or
+    inside a helper of the executor that the loop runs inline (the first one if that cannot be told). Same role as rules.C04.request_loop; derived here so that this module
+    does not depend on another rule module being importable."""
     call = drv.methods(drv.cls("AsyncExecutor")).get("__call__")
     if call is None:
         raise AnchorMissing("AsyncExecutor.__call__")
     loops = [n for n in walk_body(call) if isinstance(n, ast.AsyncFor)]
     if not loops:
         raise AnchorMissing("request loop (async for over the schedule)")
-    inner = [lp for lp in loops if any(isinstance(n, ast.Call) and last_attr(n.func) == "execute_single" for n in ast.walk(lp))]
+    nodes = (lambda lp: [n for n, _ in step.reached(lp, call)]) if step is not None else ast.walk
+    inner = [lp for lp in loops if any(isinstance(n, ast.Call) and last_attr(n.func) == _RUNNER for n in nodes(lp))]
     return call, (inner[0] if inner else loops[0])
 
 
@@ -1217,14 +1445,18 @@ def run(chk):
             chk.unknown("O18.2", "the assignment in RequestContextManager.__enter__ that takes the result of the holder's init method was not located", ent if ent is not None else RCM)
         else:
             t = R.unpack.targets[0]
-            ok = isinstance(t, ast.Tuple) and len(t.elts) == 2 and all(is_self_attr(e) for e in t.elts) and t.elts[0].attr != t.elts[1].attr and R.ctx_attr is not None and R.token_attr is not None
+            if isinstance(t, ast.Tuple):
+                ok = len(t.elts) == 2 and all(is_self_attr(e) for e in t.elts) and t.elts[0].attr != t.elts[1].attr and R.ctx_attr is not None and R.token_attr is not None
+            else:  # the pair is kept in a local and taken apart by position: the two roles (derived from the positions, see context_roles) live in two different attributes
+                ok = R.ctx_attr is not None and R.token_attr is not None and R.ctx_attr != R.token_attr
             chk.ob("O18.2", "__enter__ stores (ctx, token) from init_request_context()", ok, R.unpack, "" if ok else f"the (dict, token) pair is unpacked into `{u(t)}`")
         resets = _restore_calls(ex, R)
         if not resets:  # __exit__ and everything it calls on the holder were located: nothing restores the enclosing context
             chk.ob("O18.2", "context restored (reset(token)) unconditionally before propagation", False, ex, "nothing reached from __exit__ resets the ContextVar")
         else:
             rc_, rch_ = resets[0]
-            ok = len(resets) == 1 and len(rc_.args) == 1 and u(_chain_arg(rch_, rc_.args[0])) == f"self.{R.token_attr}" and not any(guards(x) for x in rch_) \
+            targ = rc_.args[0] if len(rc_.args) == 1 and not rc_.keywords else (rc_.keywords[0].value if not rc_.args and len(rc_.keywords) == 1 and rc_.keywords[0].arg else None)  # the one argument, positional or by keyword
+            ok = len(resets) == 1 and targ is not None and u(_chain_arg(rch_, targ)) == f"self.{R.token_attr}" and not any(guards(x) for x in rch_) \
                 and all(_chain_dominated(pch, rch_) for _, pch in props)
             chk.ob("O18.2", "context restored (reset(token)) unconditionally before propagation", ok, rc_, "")
         # (the obligation "every normal exit of __exit__ has restored the enclosing context" is stated by propagation_guard_rule below, which C04 shares)
@@ -1258,106 +1490,155 @@ def run(chk):
                  "a sub-request's timing covers its siblings, or the logical request misses sub-requests issued outside its context")
         if not R.factories:
             raise AnchorMissing("RequestContextHolder: no method returns a new RequestContextManager (the context factory)")
-        call, L = _request_loop(drv)
-        cdefs = _ldefs(call)
-        allw = _context_withs(call, R.factories)
-        withs = [(w, i, how) for w, i, how in allw if L in list(source.ancestors(w))]
+        # The request step is analysed TOGETHER WITH the helpers of the executor it runs inline (an extracted `_execute_request`, a helper that opens the context or records the
+        # sample): every construct is a chain [call site in __call__, call site in the helper, ..., node], every value is seen across the helpers (parameters bound to the
+        # arguments of the call site, results bound to what the helper returns).
+        ecls = drv.cls("AsyncExecutor")
+        step = _Step(drv, ecls, drv.methods(ecls).get("__call__"), stop=(_RUNNER,))
+        call, L = _request_loop(drv, step)
+        fns = step.functions(call)
+        shared = {u(n.targets[0]) for f_, _ in fns for n in walk_body(f_) if isinstance(n, ast.Assign) and isinstance(n.targets[0], ast.Attribute)  # instance state holding a context object
+                  for v in [source.inline_node(n.value, local_defs(f_))] if isinstance(v, ast.Call) and isinstance(v.func, ast.Attribute) and v.func.attr in R.factories}
+        allw = [(w, i, how, sites + [w]) for f_, sites in fns for w, i, how in _context_withs(f_, R.factories, step, shared)]
+        withs = [x for x in allw if L in list(source.ancestors(x[3][0]))]
         if not allw:
-            chk.unknown("O18.3", "executor: no with statement entering a request context (call of the holder's context factory) located in AsyncExecutor.__call__", L)
+            chk.unknown("O18.3", "executor: no with statement entering a request context (call of the holder's context factory) located in AsyncExecutor.__call__ or in a helper "
+                        "of the executor that it runs inline", L)
         else:
-            ok = len(withs) == 1 and withs[0][2] == "call" and source.enclosing(withs[0][0], (ast.AsyncFor, ast.For, ast.While)) is L
+            # once per request: the chain enters the loop directly (its first node is a statement of the loop, not of a loop nested in it) and no helper on the way loops around it
+            ok = len(withs) == 1 and withs[0][2] == "call" and source.enclosing(withs[0][3][0], _LOOPS) is L and all(source.enclosing(x, _LOOPS) is None for x in withs[0][3][1:])
             chk.ob("O18.3", "executor: one fresh request context per request (inside the loop)", ok, withs[0][0] if withs else allw[0][0], "" if ok else
-                   f"{len(withs)} context(s) entered inside the request loop, {len(allw) - len(withs)} outside" + ("; the context object is kept in instance state" if any(h == "attr" for _, _, h in allw) else ""))
+                   f"{len(withs)} context(s) entered inside the request loop, {len(allw) - len(withs)} outside" + ("; the context object is kept in instance state" if any(h == "attr" for _, _, h, _ in allw) else ""))
         if withs:
-            W = withs[0][0]
+            W, wchain = withs[0][0], withs[0][3]
+            FW = source.enclosing_func(W)
             cvn = _bound_context(W, withs[0][1])
-            runs = [n for n in ast.walk(W) if isinstance(n, ast.Call) and last_attr(_alias_root(n.func, cdefs)) == "execute_single"]
-            allruns = [n for n in ast.walk(L) if isinstance(n, ast.Call) and last_attr(_alias_root(n.func, cdefs)) == "execute_single"]
+            ctxname = step.tag(cvn, FW)  # how the context object of this request is spelled by step.resolve()
+            in_loop = step.reached(L, call)
+
+            def is_run(n, f_):
+                return isinstance(n, ast.Call) and last_attr(_alias_root(n.func, step.defs(f_)[0])) == _RUNNER
+
+            runs = [(n, wchain[:-1] + ch) for n, ch in step.reached(W, FW) if is_run(n, source.enclosing_func(n))]
+            allruns = [(n, ch) for n, ch in in_loop if is_run(n, source.enclosing_func(n))]
             if not allruns:
                 chk.unknown("O18.3", "executor: the runner invocation (execute_single) was not located in the request loop", L)
             else:
                 chk.ob("O18.3", "executor: runner invoked inside its context", len(runs) == 1, W, "" if runs else "the runner is invoked outside the request context")
-            reads = [n for n in ast.walk(L) if isinstance(n, ast.Attribute) and n.attr in _KEYS and isinstance(n.value, ast.Name) and isinstance(n.ctx, ast.Load)]
-            if not reads:
-                chk.unknown("O18.3", "executor: no read of <context>.request_start / .request_end located in the request loop", L)
+            reads = [(n, ch) for n, ch in in_loop if isinstance(n, ast.Attribute) and n.attr in _KEYS and isinstance(n.value, ast.Name) and isinstance(n.ctx, ast.Load)]
+            bound_by_with = {(id(source.enclosing_func(w)), i.optional_vars.id) for w, i, _, _ in allw if isinstance(i.optional_vars, ast.Name)}
+            mine, foreign, opaque = [], [], []
+            for r, ch in reads:  # the object that is read, by data flow: the local that THIS request's with statement binds / another request context / something else
+                v = step.resolve(r, source.enclosing_func(r), ch[:-1])  # (the whole read: a field of a record in between is seen through)
+                root = v.value if isinstance(v, ast.Attribute) and v.attr in _KEYS else v
+                if isinstance(root, ast.Name) and root.id == ctxname:
+                    mine.append((r, ch))
+                elif isinstance(root, ast.Name) and (id(getattr(root, "_owner", None)), getattr(root, "_orig", None)) in bound_by_with:
+                    foreign.append((r, ch))
+                else:
+                    opaque.append((r, ch, root))
+            if not mine and not foreign:
+                chk.unknown("O18.3", "executor: no read of <context>.request_start / .request_end located in the request loop"
+                            + (f" (`{short(opaque[0][0], 40)}` reads an object that is not recognised as a request context)" if opaque else ""), L)
             else:
-                ok = all(u(_alias_root(r.value, cdefs)) == cvn for r in reads)
-                chk.ob("O18.3", "executor: start/end read from that context object", ok, reads[0], "")
-                # reads happen after the runner returned
-                if runs:
-                    gg = cfg_of(call)
-                    ok = all(gg.dominated_by_nodes(gg.node_of(r), [gg.node_of(runs[0])]) for r in reads)
-                    chk.ob("O18.3", "executor: start/end read after the runner returned", ok, reads[0], "")
+                for r, _, root in opaque:
+                    chk.unknown("O18.3", f"executor: `{short(r, 40)}` reads the start / end of `{short(root, 40)}`, which is not recognised as a request context", r)
+                chk.ob("O18.3", "executor: start/end read from that context object", not foreign, (foreign or mine)[0][0],
+                       "" if not foreign else f"`{short(foreign[0][0], 40)}` reads another request context than the one this request runs in (`{cvn}`)")
+                # reads happen after the runner returned (decided in the function in which the chain of the read and the chain of the runner invocation part)
+                if runs and mine:
+                    ok = all(_chain_dominated(ch, runs[0][1]) for _, ch in mine)
+                    chk.ob("O18.3", "executor: start/end read after the runner returned", ok, mine[0][0], "")
             # what the sample records as the start of the logical request is the context's (earliest) request start, not another clock reading of the same type.
-            # The sampler call is located by data flow: the call in the loop whose callee - seen through hoisted locals - is the `add` method and whose arguments bind Sampler.add's
-            # request_start parameter
+            # The sampler call is located by data flow: the call reached from the loop whose callee - seen through hoisted locals - is the `add` method and whose arguments bind
+            # Sampler.add's request_start parameter
             sadd = drv.methods(drv.cls("Sampler")).get("add")
             if sadd is None:
                 raise AnchorMissing("Sampler.add")
             adds = []
-            for n in ast.walk(L):
+            for n, ch in in_loop:
                 if isinstance(n, ast.Call):
-                    fn = _alias_root(n.func, cdefs)
+                    fn = _alias_root(n.func, step.defs(source.enclosing_func(n))[0])
                     if isinstance(fn, ast.Attribute) and fn.attr == sadd.name and "request_start" in source.bind_args(n, sadd):
-                        adds.append(n)
+                        adds.append((n, ch))
             if not adds:
                 chk.unknown("O18.3", "executor: the call that hands the sample to Sampler.add was not located in the request loop", L)
             else:
-                ldefs = {n.targets[0].id: n.value for n in ast.walk(L) if isinstance(n, ast.Assign) and len(n.targets) == 1 and isinstance(n.targets[0], ast.Name)}
-                for n in ast.walk(L):  # parallel assignment `a, b = x, y`
-                    if isinstance(n, ast.Assign) and len(n.targets) == 1 and isinstance(n.targets[0], ast.Tuple) and isinstance(n.value, ast.Tuple) and len(n.targets[0].elts) == len(n.value.elts):
-                        ldefs.update({t.id: v for t, v in zip(n.targets[0].elts, n.value.elts) if isinstance(t, ast.Name)})
-                rsv = source.bind_args(adds[0], sadd).get("request_start")
-                got = source.inline(rsv, ldefs, no_calls=True)
-                chk.ob("O18.3", "executor: the sample's request_start is the context's request_start", got == f"{cvn}.request_start", adds[0], f"request_start := {got}",
-                       key=f"{_D}:AsyncExecutor.__call__:sample-request-start")
+                add, ach = adds[0]
+                step.ambiguous.clear()
+                gotn = step.resolve(source.bind_args(add, sadd).get("request_start"), source.enclosing_func(add), ach[:-1])
+                got = u(gotn)
+                base = gotn
+                while isinstance(base, (ast.Attribute, ast.Subscript)):
+                    base = base.value
+                is_ctx = isinstance(base, ast.Name) and (base.id == ctxname or (id(getattr(base, "_owner", None)), getattr(base, "_orig", None)) in bound_by_with)
+                if got != f"{ctxname}.request_start" and step.ambiguous:  # a local on the way is bound more than once: WHICH value reaches the sampler is not known
+                    chk.unknown("O18.3", f"executor: the request_start handed to Sampler.add (`{short(gotn, 60)}`) depends on {sorted(step.ambiguous)}, bound more than once", add)
+                elif got != f"{ctxname}.request_start" and isinstance(gotn, (ast.Attribute, ast.Subscript)) and not is_ctx:
+                    # a field of an object that is not a request context and cannot be seen through (instance state, the result of a call that is not in view)
+                    chk.unknown("O18.3", f"executor: the request_start handed to Sampler.add is `{short(gotn, 60)}`: what that field holds could not be traced", add)
+                else:
+                    chk.ob("O18.3", "executor: the sample's request_start is the context's request_start", got == f"{ctxname}.request_start", add, f"request_start := {short(gotn, 80)}",
+                           key=f"{_D}:AsyncExecutor.__call__:sample-request-start")
         RT = run_.cls("RequestTiming")
         rt = run_.methods(RT).get("__call__")
         if rt is None:
             raise AnchorMissing("RequestTiming.__call__")
-        rdefs = _ldefs(rt)
-        rw = _context_withs(rt, R.factories)
+        # the wrapper, too, is analysed together with the helpers of its class that it runs inline (a helper that builds the timing record, that awaits the delegate, ...)
+        wstep = _Step(run_, RT, rt)
+        wfns = wstep.functions(rt)
+        wshared = {u(n.targets[0]) for f_, _ in wfns for n in walk_body(f_) if isinstance(n, ast.Assign) and isinstance(n.targets[0], ast.Attribute)
+                   for v in [source.inline_node(n.value, local_defs(f_))] if isinstance(v, ast.Call) and isinstance(v.func, ast.Attribute) and v.func.attr in R.factories}
+        rw = [(w, i, how, sites + [w]) for f_, sites in wfns for w, i, how in _context_withs(f_, R.factories, wstep, wshared)]
         if not rw:
             chk.unknown("O18.3", "per-operation wrapper: no with statement entering a request context located in RequestTiming.__call__", rt)
         else:
             ok = len(rw) == 1 and rw[0][2] == "call"
             chk.ob("O18.3", "per-operation wrapper opens its own context", ok, rw[0][0], "" if ok else
-                   ("the context object is kept in instance state: concurrent invocations of the wrapper share it" if any(h == "attr" for _, _, h in rw) else f"{len(rw)} contexts"))
+                   ("the context object is kept in instance state: concurrent invocations of the wrapper share it" if any(h == "attr" for _, _, h, _ in rw) else f"{len(rw)} contexts"))
         if rw and rw[0][2] == "call":
-            W = rw[0][0]
+            W, wchain = rw[0][0], rw[0][3]
+            FW = source.enclosing_func(W)
             cvn = _bound_context(W, rw[0][1])
-            dels = [n for n in walk_body(rt) if isinstance(n, ast.Call) and u(_alias_root(n.func, rdefs)) == "self.delegate"]
+            ctxname = wstep.tag(cvn, FW)  # how the wrapper's own context object is spelled by wstep.resolve()
+            everything = wstep.reached(rt, rt)
+            inside = {id(n) for n, _ in wstep.reached(W, FW)}
+
+            def seen(n, ch):
+                return wstep.resolve(n, source.enclosing_func(n), ch[:-1])
+
+            dels = [(n, ch) for n, ch in everything if isinstance(n, ast.Call) and u(_alias_root(n.func, wstep.defs(source.enclosing_func(n))[0])) == "self.delegate"]
             if not dels:
                 chk.unknown("O18.3", "wrapper: the call of the wrapped runner (self.delegate) was not located", rt)
             else:
-                ok = len(dels) == 1 and W in list(source.ancestors(dels[0]))
-                chk.ob("O18.3", "wrapper: exactly one delegate call, inside the context", ok, dels[0], f"{len(dels)} delegate call(s)")
-            st = [n for n in ast.walk(rt) if isinstance(n, ast.Dict) and any(source.is_const(k, "service_time") for k in n.keys)]
+                ok = len(dels) == 1 and id(dels[0][0]) in inside
+                chk.ob("O18.3", "wrapper: exactly one delegate call, inside the context", ok, dels[0][0], f"{len(dels)} delegate call(s)")
+            st = [(n, ch) for n, ch in everything if isinstance(n, ast.Dict) and any(source.is_const(k, "service_time") for k in n.keys)]
             if not st:
                 chk.unknown("O18.3", "wrapper: the timing record (a dict display with the key 'service_time') was not located", rt)
             else:
-                d = dict((k.value, v) for k, v in zip(st[0].keys, st[0].values) if isinstance(k, ast.Constant))
+                d = dict((k.value, v) for k, v in zip(st[0][0].keys, st[0][0].values) if isinstance(k, ast.Constant))
                 from sa.sym import parse_expr, rat_equal
 
-                ok = rat_equal(source.inline_node(d["service_time"], rdefs), parse_expr(f"{cvn}.request_end - {cvn}.request_start")) \
-                    and all(d.get(k_) is not None and source.inline(d[k_], rdefs) == f"{cvn}.{k_}" for k_ in _KEYS)
-                chk.ob("O18.3", "wrapper: service_time == ctx.request_end - ctx.request_start of its own context", ok, st[0], "")
-            gr = cfg_of(rt)
-            reads = [n for n in walk_body(rt) if isinstance(n, ast.Attribute) and n.attr in _KEYS and isinstance(n.value, ast.Name) and u(_alias_root(n.value, rdefs)) == cvn]
+                ok = rat_equal(seen(d["service_time"], st[0][1]), parse_expr(f"{ctxname}.request_end - {ctxname}.request_start")) \
+                    and all(d.get(k_) is not None and u(seen(d[k_], st[0][1])) == f"{ctxname}.{k_}" for k_ in _KEYS)
+                chk.ob("O18.3", "wrapper: service_time == ctx.request_end - ctx.request_start of its own context", ok, st[0][0], "")
+            reads = [(n, ch) for n, ch in everything if isinstance(n, ast.Attribute) and n.attr in _KEYS and isinstance(n.value, ast.Name) and u(seen(n.value, ch)) == ctxname]
             if not reads or not dels:
                 chk.unknown("O18.3", "wrapper: no read of the context's request_start / request_end located", rt)
             else:
-                ok = all(gr.dominated_by_nodes(gr.node_of(r), [gr.node_of(dels[0])]) for r in reads)
-                chk.ob("O18.3", "wrapper: timings read after the delegate returned", ok, reads[0], "")
+                ok = all(_chain_dominated(ch, dels[0][1]) for _, ch in reads)
+                chk.ob("O18.3", "wrapper: timings read after the delegate returned", ok, reads[0][0], "")
             # F38: a sub-request context without any wire request is a legal leaf of the context tree (get-async-search skips completed searches): its start and end are None.
             # Every arithmetic on the context's start / end must be unreachable for a missing value, and reachable for every pair of present values (0.0 is a time, not 'missing').
-            arith = [n for n in walk_body(rt) if isinstance(n, ast.BinOp) and isinstance(n.op, (ast.Sub, ast.Add)) and _mentions(source.inline_node(n, rdefs), cvn, _KEYS)]
+            # The guard facts are those of the whole chain (the call site of a helper that does the arithmetic included), each seen across the helpers.
+            arith = [(n, ch) for n, ch in everything if isinstance(n, ast.BinOp) and isinstance(n.op, (ast.Sub, ast.Add)) and _mentions(seen(n, ch), ctxname, _KEYS)]
             wkey = f"{_R}:RequestTiming.__call__"
             if not arith:
-                chk.unknown("O18.3", "wrapper: no computation over the context's request_start / request_end located (how is the sub-request's service time computed?)", st[0] if st else rt)
-            for n in arith:
+                chk.unknown("O18.3", "wrapper: no computation over the context's request_start / request_end located (how is the sub-request's service time computed?)", st[0][0] if st else rt)
+            for n, ch in arith:
                 try:
-                    table, facts = timing_presence_table(n, cvn, rdefs)
+                    table, facts = timing_presence_table(n, ctxname, {}, facts=[wstep.resolve(f, source.enclosing_func(x), ch[:i], opaque_calls=False) for i, x in enumerate(ch) for f in pat.fact_nodes(x)])
                 except CannotEval as x:
                     chk.unknown("O18.3", f"wrapper: a guard of `{short(n, 50)}` that speaks about the context's start / end cannot be evaluated ({x})", n)
                     continue
@@ -1632,4 +1913,109 @@ VARIANTS += [
     [V("F39: the node helper records the end only if none is known yet", "break", _A, "            try:\n                RequestContextHolder.on_request_end()\n            except LookupError:\n                pass\n            raise\n",
        "            self._request_ended()\n            raise\n", "O18.5"),
      V("", "break", _A, _PR, "    def _request_ended(self):\n        if RequestContextHolder.request_context.get().get(\"request_end\") is None:\n            RequestContextHolder.on_request_end()\n\n" + _PR)],
+]
+
+# ---- hardening round 3: the executor's request step and the wrapper seen TOGETHER WITH the helpers they run inline (benign C18-b6 and further refactorings of the same functions),
+#      and the same defects placed inside / at the call sites of those helpers -----------------------------------------------------------------------------------------------
+_W4 = (_WITH + "                    total_ops, total_ops_unit, request_meta_data = await execute_single(runner, self.es, params, self.on_error)\n"
+       "                    request_start = request_context.request_start\n                    request_end = request_context.request_end\n")
+_CALLDEF = "    async def __call__(self, *args, **kwargs):\n        any_task_completes_parent"
+_B6_CALL = "                total_ops, total_ops_unit, request_meta_data, request_start, request_end = await self._execute_request(runner, params)\n"
+_B6_RUN = "            total_ops, total_ops_unit, request_meta_data = await execute_single(runner, self.es, params, self.on_error)\n"
+_B6_OPEN = "        with self.es[\"default\"].new_request_context() as request_context:\n"
+_B6_START, _B6_END = "            request_start = request_context.request_start\n", "            request_end = request_context.request_end\n"
+_B6_RET = "        return total_ops, total_ops_unit, request_meta_data, request_start, request_end\n"
+_B6_BODY = _B6_OPEN + _B6_RUN + _B6_START + _B6_END + _B6_RET
+_SCHED = "        schedule = self.schedule_handle()\n"
+_OUTCOME = ("                outcome = await self._execute_request(runner, params)\n"
+            "                total_ops, total_ops_unit, request_meta_data = outcome.total_ops, outcome.total_ops_unit, outcome.request_meta_data\n"
+            "                request_start, request_end = outcome.request_start, outcome.request_end\n")
+_OUTCOME_CLS = ("class RequestOutcome(collections.namedtuple(\"RequestOutcome\", \"total_ops total_ops_unit request_meta_data request_start request_end\")):\n    pass\n\n\n"
+                "class AsyncExecutor:")
+_ADD_FULL = (_ADD + "                    sample_type,\n                    request_meta_data,\n                    absolute_processing_start,\n                    request_start,\n                    latency,\n"
+             "                    service_time,\n                    processing_time,\n                    throughput,\n                    total_ops,\n                    total_ops_unit,\n"
+             "                    time_period,\n                    progress,\n                    request_meta_data.pop(\"dependent_timing\", None),\n                )\n")
+_REC_CALL = ("                self._record(sample_type, request_meta_data, absolute_processing_start, {start}, latency, service_time, processing_time, throughput, total_ops, "
+             "total_ops_unit, time_period, progress)\n")
+_REC_DEF = ("    def _record(self, sample_type, meta_data, absolute_time, started, latency, service_time, processing_time, throughput, ops, ops_unit, time_period, progress):\n"
+            "        self.sampler.add(self.task, self.client_id, sample_type, meta_data, absolute_time, started, latency, service_time, processing_time, throughput, ops, ops_unit, time_period,\n"
+            "                         progress, meta_data.pop(\"dependent_timing\", None))\n\n")
+
+
+def _step_helper(body, sig="self, runner, params", name="_execute_request", kw="async def"):
+    return f"    {kw} {name}({sig}):\n{body}\n" + _CALLDEF
+
+
+def _b6_shape(kind, name, rule=None, body=_B6_BODY, call=_B6_CALL, extra=()):
+    """benign C18-b6: the context / runner / reads step of the request loop extracted into a coroutine method that the loop awaits"""
+    return [V(name, kind, _D, _W4, call, rule), V("", kind, _D, _CALLDEF, _step_helper(body))] + [V("", kind, f_, o, n) for f_, o, n in extra]
+
+
+_RT_IF = _F38_IF
+_RT_HEAD = "    async def __aenter__(self):\n        await self.delegate.__aenter__()\n        return self\n\n    async def __call__(self, es, params):\n        absolute_time = time.time()\n"
+_RT_REC = "{\n" + "".join(f"            {k}\n" for k in _F38_KEYS) + "        }\n"
+_RT_H1 = "    @staticmethod\n    def _dependent_timing(params, absolute_time, start, end):\n        return " + _RT_REC + "\n"
+_RT_H2 = "    @staticmethod\n    def _dependent_timing(params, absolute_time, start, end):\n        if start is None or end is None:\n            return None\n        return " + _RT_REC + "\n"
+_RT_H3 = ("    def _dependent_timing(self, params, absolute_time, ctx):\n        started, ended = ctx.request_start, ctx.request_end\n        if started is None or ended is None:\n            return None\n"
+          "        return {\n            \"operation\": params.get(\"name\"),\n            \"operation-type\": params.get(\"operation-type\"),\n            \"absolute_time\": absolute_time,\n"
+          "            \"request_start\": started,\n            \"request_end\": ended,\n            \"service_time\": ended - started,\n        }\n\n")
+_RT_USE1 = "                result[\"dependent_timing\"] = self._dependent_timing(params, absolute_time, {a}, {b})\n"
+_RT_USE2 = "            timing = self._dependent_timing(params, absolute_time, start, end)\n            if timing is not None:\n                result[\"dependent_timing\"] = timing\n"
+_RT_INVOKE = "    async def _invoke(self, es, params):\n        return_value = await self.delegate(es, params)\n        return return_value\n\n"
+_RT_OPEN = "        with es[\"default\"].new_request_context() as request_context:\n"
+_ENTER = "        self.ctx, self.token = self.ctx_holder.init_request_context()\n"
+_TIMING_HELPER = "    def _timing(self, key):\n        return self.ctx.get(key)\n\n    def __exit__(self, exc_type"
+VARIANTS += [
+    # executor: the request step in a helper (benign C18-b6)
+    _b6_shape("keep", "b6 shape: context, runner and reads extracted into a coroutine helper that returns (ops, unit, meta, start, end)"),
+    _b6_shape("break", "b6 shape: the helper awaits the runner before it enters the context", "O18.3", _B6_RUN.replace("            total", "        total") + _B6_OPEN + _B6_START + _B6_END + _B6_RET),
+    _b6_shape("break", "b6 shape: the helper returns end and start the wrong way round", "O18.3", _B6_BODY.replace("request_meta_data, request_start, request_end\n", "request_meta_data, request_end, request_start\n")),
+    _b6_shape("break", "b6 shape: the helper reads the start before the runner ran", "O18.3", _B6_OPEN + _B6_START + _B6_RUN + _B6_END + _B6_RET),
+    _b6_shape("break", "b6 shape: the helper enters a context object that is kept in instance state", "O18.3", _B6_BODY.replace("with self.es[\"default\"].new_request_context() as", "with self._context as"),
+              extra=[(_D, _SCHED, _SCHED + "        self._context = self.es[\"default\"].new_request_context()\n")]),
+    _b6_shape("break", "b6 shape: the helper is awaited twice per request (two contexts for one sample)", "O18.3", call="                for _ in range(2):\n    " + _B6_CALL),
+    _b6_shape("keep", "b6 shape through a hoisted bound method, the result kept in a tuple and indexed",
+              body=_B6_BODY.replace(_B6_RET, "        outcome = (total_ops, total_ops_unit, request_meta_data, request_start, request_end)\n        self.logger.debug(\"request done\")\n        return outcome\n"),
+              call="                outcome = await run_request(runner, params)\n                total_ops, total_ops_unit, request_meta_data = outcome[0], outcome[1], outcome[2]\n"
+                   "                request_start, request_end = outcome[3], outcome[4]\n", extra=[(_D, _SCHED, _SCHED + "        run_request = self._execute_request\n")]),
+    _b6_shape("keep", "b6 shape: the helper returns a named tuple, the loop reads its fields", body=_B6_BODY.replace(_B6_RET, "        return RequestOutcome(total_ops, total_ops_unit, request_meta_data, request_start, request_end)\n"),
+              call=_OUTCOME, extra=[(_D, "class AsyncExecutor:", _OUTCOME_CLS)]),
+    _b6_shape("break", "b6 shape: the named tuple is built with end and start swapped", "O18.3", body=_B6_BODY.replace(_B6_RET, "        return RequestOutcome(total_ops, total_ops_unit, request_meta_data, request_end, request_start)\n"),
+              call=_OUTCOME, extra=[(_D, "class AsyncExecutor:", _OUTCOME_CLS)]),
+    [V("request step in a module-level coroutine function", "keep", _D, _W4, "                total_ops, total_ops_unit, request_meta_data, request_start, request_end = await _execute_in_context(self.es, runner, params, self.on_error)\n"),
+     V("", "keep", _D, "async def execute_single(runner, es, params, on_error):", "async def _execute_in_context(es, runner, params, on_error):\n    with es[\"default\"].new_request_context() as ctx:\n"
+       "        ops, unit, meta = await execute_single(runner, es, params, on_error)\n        return ops, unit, meta, ctx.request_start, ctx.request_end\n\n\nasync def execute_single(runner, es, params, on_error):")],
+    [V("context opened through a helper that returns the new context manager", "keep", _D, _WITH, "                with self._request_context() as request_context:\n"),
+     V("", "keep", _D, _CALLDEF, _step_helper("        return self.es[\"default\"].new_request_context()\n", "self", "_request_context", "def"))],
+    [V("start / end read by a helper that is handed the context object", "keep", _D, "                    request_start = request_context.request_start\n                    request_end = request_context.request_end\n",
+       "                    request_start, request_end = self._timings(request_context)\n"),
+     V("", "keep", _D, _CALLDEF, _step_helper("        return ctx.request_start, ctx.request_end\n", "self, ctx", "_timings", "def"))],
+    [V("sampler call extracted into a helper (the start handed on as an argument)", "keep", _D, _ADD_FULL, _REC_CALL.format(start="request_start")), V("", "keep", _D, _CALLDEF, _REC_DEF + _CALLDEF)],
+    [V("sampler helper is handed the processing start", "break", _D, _ADD_FULL, _REC_CALL.format(start="processing_start"), "O18.3"), V("", "break", _D, _CALLDEF, _REC_DEF + _CALLDEF)],
+    [V("start read from a context that was opened before the loop", "break", _D, "                    request_start = request_context.request_start\n", "                    request_start = outer.request_start\n", "O18.3"),
+     V("", "break", _D, "        try:\n            async for expected_scheduled_time", "        try:\n          with self.es[\"default\"].new_request_context() as outer:\n            pass\n          if True:\n            async for expected_scheduled_time")],
+    V("start / end read after the context was left (the properties read the same dict)", "keep", _D, "                    request_start = request_context.request_start\n                    request_end = request_context.request_end\n",
+      "                request_start = request_context.request_start\n                request_end = request_context.request_end\n"),
+    # wrapper: the timing record built / the delegate awaited by a helper of the wrapper
+    [V("wrapper: timing record built by a static helper, guard at the call site", "keep", _R, _F38_IF + _F38_DICT, _RT_IF + _RT_USE1.format(a="start", b="end")), V("", "keep", _R, _RT_HEAD, _RT_H1 + _RT_HEAD)],
+    [V("wrapper: record helper called without any guard", "break", _R, _F38_IF + _F38_DICT, _RT_USE1.format(a="start", b="end")[4:], "O18.3"), V("", "break", _R, _RT_HEAD, _RT_H1 + _RT_HEAD)],
+    [V("wrapper: record helper called with start / end swapped", "break", _R, _F38_IF + _F38_DICT, _RT_IF + _RT_USE1.format(a="end", b="start"), "O18.3"), V("", "break", _R, _RT_HEAD, _RT_H1 + _RT_HEAD)],
+    [V("wrapper: record helper with the guard clause inside", "keep", _R, _F38_IF + _F38_DICT, _RT_USE2), V("", "keep", _R, _RT_HEAD, _RT_H2 + _RT_HEAD)],
+    [V("wrapper: record helper guards by truthiness (0.0 is a time)", "break", _R, _F38_IF + _F38_DICT, _RT_USE2, "O18.3"),
+     V("", "break", _R, _RT_HEAD, _RT_H2.replace("if start is None or end is None:", "if not start or not end:") + _RT_HEAD)],
+    [V("wrapper: record helper that is handed the context object", "keep", _R, "            start = request_context.request_start\n            end = request_context.request_end\n", ""),
+     V("", "keep", _R, _F38_IF + _F38_DICT, "            timing = self._dependent_timing(params, absolute_time, request_context)\n            if timing:\n                result[\"dependent_timing\"] = timing\n"),
+     V("", "keep", _R, _RT_HEAD, _RT_H3 + _RT_HEAD)],
+    [V("wrapper: delegate awaited in a helper, called inside the context", "keep", _R, _RW, _RT_OPEN + "            return_value = await self._invoke(es, params)\n"), V("", "keep", _R, _RT_HEAD, _RT_INVOKE + _RT_HEAD)],
+    [V("wrapper: delegate helper awaited before the context is entered", "break", _R, _RW, "        return_value = await self._invoke(es, params)\n" + _RT_OPEN, "O18.3"), V("", "break", _R, _RT_HEAD, _RT_INVOKE + _RT_HEAD)],
+    V("wrapper: presence of both times held in a flag computed with all()", "keep", _R, _F38_IF, "            present = all(t is not None for t in (start, end))\n            if present:\n"),
+    # context manager: keyword argument, pair kept in a local, properties through a helper
+    V("restore called with the token by keyword", "keep", _C, "self.ctx_holder.restore_context(self.token)", "self.ctx_holder.restore_context(token=self.token)"),
+    V("restore called by keyword with something that is not the token", "break", _C, "self.ctx_holder.restore_context(self.token)", "self.ctx_holder.restore_context(token=self.ctx)", "O18.2"),
+    V("__enter__ keeps the (dict, token) pair in a local and takes it apart by position", "keep", _C, _ENTER, "        installed = self.ctx_holder.init_request_context()\n        self.ctx = installed[0]\n        self.token = installed[1]\n"),
+    V("__enter__ takes the pair apart the wrong way round", "break", _C, _ENTER, "        installed = self.ctx_holder.init_request_context()\n        self.ctx = installed[1]\n        self.token = installed[0]\n", "O18.2"),
+    [V("properties read the dict through a helper of the manager", "keep", _C, "        return self.ctx.get(\"request_start\")", "        return self._timing(\"request_start\")"),
+     V("", "keep", _C, "        return self.ctx.get(\"request_end\")", "        return self._timing(\"request_end\")"), V("", "keep", _C, "    def __exit__(self, exc_type", _TIMING_HELPER)],
+    [V("property helper is asked for the end's key by the start property", "break", _C, "        return self.ctx.get(\"request_start\")", "        return self._timing(\"request_end\")", "O18.1"),
+     V("", "break", _C, "        return self.ctx.get(\"request_end\")", "        return self._timing(\"request_end\")"), V("", "break", _C, "    def __exit__(self, exc_type", _TIMING_HELPER)],
 ]
